@@ -219,7 +219,7 @@ def _sides_for(ent, what: str) -> List[str]:
 @st.composite
 def program(draw, kinds: Optional[List[str]] = None, max_entities: int = 3, max_statements: int = 10,
             allow_delete: bool = True, sphere_copy: bool = False, only: Optional[List[str]] = None, far: bool = True,
-            finishes: Optional[List[str]] = None):
+            finishes: Optional[List[str]] = None, stage2_ok: bool = True):
     ne = draw(st.integers(1, max_entities))
     chosen: List[str] = []
     for e in range(ne):
@@ -251,8 +251,21 @@ def program(draw, kinds: Optional[List[str]] = None, max_entities: int = 3, max_
             x = draw(st.sampled_from(round_ops)) if round_ops and draw(st.booleans()) else draw(st.sampled_from(deletable))
             if x not in deleted and len(deleted) < len(ops) - 1:
                 deleted.append(x)
+    # optional second rendering of a part of the same objects (after the main write): further operations are left
+    # out - deleted + clear() + write on the same mesh, or a new Mesh built from the remaining objects
+    stage2 = None
+    rest = [x for x in deletable if x not in deleted]
+    if stage2_ok and len(ops) - len(deleted) >= 2 and rest and draw(st.integers(0, 2)) == 0:
+        drop: List[Tuple[int, int]] = []
+        for _ in range(draw(st.integers(1, 2))):
+            x = draw(st.sampled_from(rest))
+            if x not in drop and len(deleted) + len(drop) < len(ops) - 1:
+                drop.append(x)
+        if drop:
+            stage2 = {"kind": draw(st.sampled_from(["delete+clear", "new-mesh"])), "drop": [list(x) for x in drop]}
+    touched = {e for e, _ in (stage2["drop"] if stage2 else [])}
     for e, ent in enumerate(entities):
-        plan_chops(draw, ent, [i for (ee, i) in deleted if ee == e], False)
+        plan_chops(draw, ent, [i for (ee, i) in deleted if ee == e], e in touched)
 
     script: List[Dict[str, Any]] = []
     for (e, i) in deleted:
@@ -380,6 +393,8 @@ def program(draw, kinds: Optional[List[str]] = None, max_entities: int = 3, max_
     case = {"entities": entities, "script": script, "finish": "write" if sphere_copy else finish}
     if shift:
         case["shift"] = shift
+    if stage2 and not sphere_copy:
+        case["stage2"] = stage2
     return case
 
 
@@ -504,16 +519,30 @@ def make_entities(case) -> Run:
     return run
 
 
-def run_script(case, run: Run, skip_modify: set) -> None:
+def run_script(case, run: Run, skip_modify: set, mesh: Any = None, drop: Any = ()) -> None:
     """Executes the statements up to (not including) write.  `skip_modify`: indices of modify_patch statements that
-    are not executed (their patch has no face in the final model; see interpret)."""
-    mesh = run.mesh
+    are not executed (their patch has no face in the final model; see interpret).
+    With `mesh` given: only the mesh-level statements are executed, on that mesh (the operations already carry what
+    was declared on them), and the operations in `drop` are left out: not added where they are depot entries of their
+    own, deleted where they are part of a shape."""
+    replay = mesh is not None
+    mesh = mesh if replay else run.mesh
+    dropped = {tuple(x) for x in drop}
     for si, s in enumerate(case["script"]):
         do = s["do"]
         if do == "add":
             obj = run.entities[s["ent"]]
-            for x in obj if isinstance(obj, list) else [obj]:
-                mesh.add(x)
+            if isinstance(obj, list):
+                for i, x in enumerate(obj):
+                    if (s["ent"], i) not in dropped:
+                        mesh.add(x)
+            elif n_ops(case["entities"][s["ent"]]) > 1 or (s["ent"], 0) not in dropped:
+                mesh.add(obj)
+                for (e, i) in sorted(dropped):
+                    if e == s["ent"]:
+                        mesh.delete(run.ops[(e, i)])
+        elif replay and do in ("set_patch", "shape_patch", "zone", "project_side", "project_edge", "project_corner"):
+            continue
         elif do == "set_patch":
             run.ops[(s["ent"], s["op"])].set_patch(s["sides"], s["name"])
         elif do == "shape_patch":
